@@ -47,6 +47,8 @@ inductive Ev where
   | queuedSolv (s : Option Nat)
   /-- `queue_package` marked the package as processed and queued its candidates request -/
   | queuedPkg (n : Nat)
+  /-- `analyze_unsolvable` follows the literals of the reason clause of an involved assignment -/
+  | blame (clause : Nat)
 deriving Repr, Inhabited
 
 /-- why a run stopped abnormally -/
@@ -104,6 +106,9 @@ structure S where
   raised : Bool := false
   -- asynchronous provider (MDet/Async.lean): completion order of the outstanding requests, executor event log
   asyncMode : Bool := false
+  gateFs : Bool := false                    -- filter_candidates / sort_candidates suspend as well
+  cachedMatching : List Nat := []           -- version_set_candidates (observable only when filtering suspends)
+  cachedInverse : List Nat := []            -- version_set_inverse_candidates
   sched : List String := []                 -- labels of the requests the executor completes, in order
   aevents : List String := []               -- `pending …` / `complete <label>`, newest first
   runStart : Nat := 0                       -- `SolverState::starting_level` of the current run_sat
@@ -245,6 +250,7 @@ def evLine : Ev → String
   | .unsolvable c => s!"unsolvable {c}"
   | .queuedSolv r => s!"queued solvable {rootStr r}"
   | .queuedPkg n => s!"queued package {n}"
+  | .blame c => s!"blame {c}"
 
 /-- the history as events of the abstract system (`cands` completes the preceding `requires` clause) -/
 def absEvents (evs : List Ev) : List Abs.Event :=
